@@ -62,12 +62,24 @@ Definition wf_bitem (b : bitem) : bool :=
   end.
 Definition first_char (items : list bitem) : option nat :=
   match items with [] => None | b :: _ => hd_error (show_bitem b) end.
+(* a "]" may be a member when it stands first, a "-" when it stands last (or first): the list is an optional "]", well-formed
+   items, an optional "-" *)
+Definition strip_first_rb (items : list bitem) : bool * list bitem :=
+  match items with
+  | BChar c :: r => if c =? ch_rb then (true, r) else (false, items)
+  | _ => (false, items)
+  end.
+Definition strip_last_minus (items : list bitem) : bool * list bitem :=
+  match rev items with
+  | BChar c :: r => if c =? ch_minus then (true, rev r) else (false, items)
+  | _ => (false, items)
+  end.
 Definition wf_item (g : gitem) : bool :=
   match g with
   | GLit c => negb (c =? ch_q) && negb (c =? ch_star) && negb (c =? ch_bs) && negb (c =? ch_lb)
   | GEsc _ | GAny | GStar => true
   | GBr neg items =>
-      forallb wf_bitem items &&
+      forallb wf_bitem (snd (strip_last_minus (snd (strip_first_rb items)))) &&
       match first_char items with
       | None => false                                   (* an empty bracket is not a bracket expression *)
       | Some c => neg || (negb (c =? ch_bang) && negb (c =? ch_caret))
